@@ -123,10 +123,13 @@ def _nightly_sysroot():
 def facts_dir():
     ensure_tools()
     h = tree_hash(extra=(SYNFACTS_BIN, DRIVER_BIN))
-    return os.path.join(CACHE, "facts", h)
+    # (the self-test keeps the facts of a scratch copy inside that copy, so they disappear with it and no other worker prunes them)
+    return os.path.join(os.environ.get("VERIF_FACTS_DIR") or os.path.join(CACHE, "facts"), h)
 
 
 def _prune_old(keep):
+    if os.environ.get("VERIF_FACTS_DIR"):
+        return
     base = os.path.join(CACHE, "facts")
     if not os.path.isdir(base):
         return
